@@ -7,7 +7,7 @@
    lemma over the 56 instructions.  Statements are proved by induction on the statement tree
    (a nested induction on the item list for `for`), expressions by induction on the expression;
    a library of templates by induction on the library list. *)
-From TeraV Require Import Model.Value Model.Instr Model.VFormat Model.VM Spec.Stmt Model.Compile Gen.Tables.
+From TeraV Require Import Model.Value Model.Instr Model.VFormat Model.VM Model.World0 Spec.Stmt Model.Compile Gen.Tables.
 Local Open Scope nat_scope.
 
 (* ---------- small facts ---------- *)
@@ -184,6 +184,50 @@ Proof.
   destruct g as [g'|]; [rewrite lookup_ctx_get; reflexivity|reflexivity].
 Qed.
 
+(* ---------- facts about the reference interpreter itself ---------- *)
+Section SpecFacts.
+  Variables (B : builtins) (ae : bool) (inc : str -> env -> res str).
+
+  Lemma exec_list_single s en : exec_list B ae inc [s] en = exec B ae inc s en.
+  Proof.
+    unfold exec_list.
+    change (exec_seq (exec B ae inc) [s] en)
+      with (match exec B ae inc s en with
+            | ROk (en1, t1, SigNormal) =>
+                match exec_seq (exec B ae inc) [] en1 with
+                | ROk (en2, t2, sg) => ROk (en2, t1 ++ t2, sg)
+                | RErr x => RErr x
+                end
+            | r => r
+            end).
+    destruct (exec B ae inc s en) as [[[en1 t1] sg]|x]; [|reflexivity].
+    destruct sg; cbn; [rewrite app_nil_r|..]; reflexivity.
+  Qed.
+
+  (* the body selected by if / elif* / else: the first branch whose condition is truthy *)
+  Fixpoint first_truthy (branches : list (expr * list stmt)) (els : list stmt) (en : env) : res (list stmt) :=
+    match branches with
+    | [] => ROk els
+    | (c, body) :: rest =>
+        match eval B c en with
+        | ROk v => if is_truthy v then ROk body else first_truthy rest els en
+        | RErr x => RErr x
+        end
+    end.
+
+  Theorem if_first_truthy_branch : forall branches els en,
+    exec_list B ae inc (if_chain branches els) en
+    = match first_truthy branches els en with
+      | ROk body => exec_list B ae inc body en
+      | RErr x => RErr x
+      end.
+  Proof.
+    induction branches as [|[c body] rest IH]; intros els en; cbn [if_chain first_truthy]; [reflexivity|].
+    rewrite exec_list_single. cbn [exec]. destruct (eval B c en) as [v|x]; [|reflexivity].
+    destruct (is_truthy v); [reflexivity|]. apply IH.
+  Qed.
+End SpecFacts.
+
 (* ---------- the simulation ---------- *)
 
 Section Sim.
@@ -253,6 +297,7 @@ Section Sim.
   Section Tpl.
     Variables (tpl : template) (ae : option bool) (depth : nat) (ch : list instr).
     Variable inc : str -> env -> res str.
+    Variable okn : str -> bool.      (* the names an include may use (Compile.wf_stmt) *)
 
     Notation R := (fun f pc s o => run W wr wd f tpl ae depth ch pc s o).
     Definition aesc : bool := match ae with Some x => x | None => t_autoescape tpl end.
@@ -814,14 +859,14 @@ Section Sim.
 
     Definition stmt_ok (s : stmt) : Prop :=
       forall lex lp pc b stk l sv c o,
-        wf_stmt lex (is_some lp) s = true -> pre lex lp b l ->
+        wf_stmt okn lex (is_some lp) s = true -> pre lex lp b l ->
         code_at pc (compile_node pc (option_map fst lp) s) ->
         result_ok pc (mk b stk l sv c) (pc + length (compile_node pc (option_map fst lp) s)) lp b stk l sv c o
                   (exec B aesc inc s (absE b l sv)).
 
     Definition list_ok (body : list stmt) : Prop :=
       forall lex lp pc b stk l sv c o,
-        forallb (wf_stmt lex (is_some lp)) body = true -> pre lex lp b l ->
+        forallb (wf_stmt okn lex (is_some lp)) body = true -> pre lex lp b l ->
         code_at pc (compile_seq compile_node pc (option_map fst lp) body) ->
         result_ok pc (mk b stk l sv c) (pc + length (compile_seq compile_node pc (option_map fst lp) body)) lp
                   b stk l sv c o (exec_list B aesc inc body (absE b l sv)).
@@ -858,13 +903,13 @@ Section Sim.
     Qed.
 
     (* break/continue-free bodies compile the same whatever the enclosing loop *)
-    Lemma compile_lp_irrel : forall s lex pc lp, wf_stmt lex false s = true ->
+    Lemma compile_lp_irrel : forall s lex pc lp, wf_stmt okn lex false s = true ->
       compile_node pc lp s = compile_node pc None s.
     Proof.
       induction s using stmt_ind'; intros lex pc lp Hwf; try reflexivity.
-      all: assert (Hseq : forall body, Forall (fun s => forall lex pc lp, wf_stmt lex false s = true ->
+      all: assert (Hseq : forall body, Forall (fun s => forall lex pc lp, wf_stmt okn lex false s = true ->
                     compile_node pc lp s = compile_node pc None s) body ->
-                  forall lex pc lp, forallb (wf_stmt lex false) body = true ->
+                  forall lex pc lp, forallb (wf_stmt okn lex false) body = true ->
                     compile_seq compile_node pc lp body = compile_seq compile_node pc None body)
         by (induction 1 as [|x0 t0 Hx _ IHt]; intros lex' pc' lp' Hw; [reflexivity|];
             cbn [forallb] in Hw; apply andb_prop in Hw as [Hw1 Hw2];
@@ -885,7 +930,7 @@ Section Sim.
       - discriminate.
     Qed.
 
-    Lemma compile_seq_lp_irrel body lex pc lp : forallb (wf_stmt lex false) body = true ->
+    Lemma compile_seq_lp_irrel body lex pc lp : forallb (wf_stmt okn lex false) body = true ->
       compile_seq compile_node pc lp body = compile_seq compile_node pc None body.
     Proof.
       revert pc. induction body as [|x t IH]; intros pc Hw; [reflexivity|].
@@ -982,7 +1027,7 @@ Section Sim.
       nth_error ch start = Some (Iterate le) ->
       code_at (S start) (compile_seq compile_node (S start) (Some start) body) ->
       nth_error ch (S start + length (compile_seq compile_node (S start) (Some start) body)) = Some (Jump start) ->
-      forallb (wf_stmt true true) body = true -> parent_ok b ->
+      forallb (wf_stmt okn true true) body = true -> parent_ok b ->
       forall rest i f l sv c o,
         loop_inv key val n le f i rest -> (rest = [] -> lf_iterated f = true) -> Forall frame_ok l ->
         match exec_iter (exec_list B aesc inc body) key val n rest i (absE b l sv) with
@@ -1095,7 +1140,7 @@ Section Sim.
 
     Lemma exit_empty le lp0 els lex b stk f l sv c o : lf_iterated f = false ->
       code_at le (for_exit le (option_map fst lp0) els) -> list_ok els ->
-      forallb (wf_stmt lex (is_some lp0)) els = true -> pre lex lp0 b l ->
+      forallb (wf_stmt okn lex (is_some lp0)) els = true -> pre lex lp0 b l ->
       result_ok le (mk b stk (f :: l) sv c) (le + length (for_exit le (option_map fst lp0) els)) lp0 b stk l sv c o
                 (exec_list B aesc inc els (absE b l sv)).
     Proof.
@@ -1144,7 +1189,7 @@ Section Sim.
     (* the meaning `inc` the reference interpreter gives to included templates is what the VM
        computes for them (discharged for template libraries below) *)
     Definition inc_sim : Prop :=
-      forall name b l sv (o : sink W), Forall frame_ok l -> parent_ok b ->
+      forall name b l sv (o : sink W), okn name = true -> Forall frame_ok l -> parent_ok b ->
         match assoc_get (w_templates wd) name with
         | None => exists x, inc name (absE b l sv) = RErr x
         | Some t2 =>
@@ -1395,7 +1440,7 @@ Section Sim.
       - (* SInclude *)
         cbn [compile_node exec length] in *. apply code_at_cons in Hc as [Hi _].
         destruct Hpre as (Hlex & Hfr & Hpar & Hlp).
-        pose proof (Hinc n b l sv) as HI.
+        cbn [wf_stmt] in Hwf. pose proof (fun o => Hinc n b l sv o Hwf) as HI.
         destruct (assoc_get (w_templates wd) n) as [t2|] eqn:Et.
         + destruct c as [|c0 ct].
           * specialize (HI o Hfr Hpar). cbv zeta in HI.
@@ -1431,9 +1476,222 @@ Section Sim.
 
     Theorem body_correct : forall body, list_ok body.
     Proof. intros body. apply list_from_stmts. apply Forall_forall. intros s _. apply stmt_correct. Qed.
-(*PARTF*)
+
+
+    (* captures are exact, for compiled bodies: the string a Capture ... EndCapture pair would
+       collect is the text the same code appends to the enclosing sink when run uncaptured *)
+    Theorem capture_is_exact_compiled : forall body lex pc b stk l sv c o,
+      forallb (wf_stmt okn lex false) body = true -> pre lex None b l ->
+      code_at pc (compile_seq compile_node pc None body) ->
+      match exec_list B aesc inc body (absE b l sv) with
+      | ROk (en1, text, SigNormal) =>
+          let pe := pc + length (compile_seq compile_node pc None body) in
+          (exists l' sv', en1 = absE b l' sv' /\
+             steps pc (mk b stk l sv ([] :: c)) o pe (mk b stk l' sv' (text :: c)) o) /\
+          (exists l' sv', en1 = absE b l' sv' /\
+             steps pc (mk b stk l sv c) o pe (mk b stk l' sv' (out_caps c text)) (out_sink c o text))
+      | _ => True
+      end.
+    Proof.
+      intros body lex pc b stk l sv c o Hwf Hpre Hc.
+      pose proof (body_correct body lex None pc b stk l sv ([] :: c) o Hwf Hpre Hc) as H1.
+      pose proof (body_correct body lex None pc b stk l sv c o Hwf Hpre Hc) as H2.
+      destruct (exec_list B aesc inc body (absE b l sv)) as [[[en1 text] sg]|x]; [|exact I].
+      destruct sg; try exact I. cbn [result_ok target option_map] in *.
+      destruct H1 as (l1 & sv1 & He1 & _ & S1). destruct H2 as (l2 & sv2 & He2 & _ & S2).
+      split; [exists l1, sv1|exists l2, sv2]; split; assumption.
+    Qed.
+
+    (* a whole chunk: from position 0 of the compiled body to the end of the chunk *)
+    Lemma chunk_correct body b (o : sink W) :
+      ch = compile body -> wf_body okn body = true -> parent_ok b ->
+      match render_body B aesc inc body (absE b [] []) with
+      | ROk text => exists n s', forall k, R (n + k) 0 (mk b [] [] [] []) o = RDone s' (sink_add o text)
+      | RErr _ => exists n e, forall k, R (n + k) 0 (mk b [] [] [] []) o = RFail e
+      end.
+    Proof.
+      intros Hch Hwf Hpar.
+      assert (Hpre : pre false None b []) by (split; [discriminate|]; split; [constructor|]; split; [exact Hpar|exact I]).
+      assert (Hc : code_at 0 (compile_seq compile_node 0 (option_map fst (@None (nat * nat))) body)).
+      { intros i x Hi. cbn [plus option_map]. rewrite Hch. exact Hi. }
+      pose proof (body_correct body false None 0 b [] [] [] [] o Hwf Hpre Hc) as Hb.
+      unfold render_body. destruct (exec_list B aesc inc body (absE b [] [])) as [[[en1 text] sg]|x];
+        cbn [result_ok] in Hb; [|exact Hb].
+      destruct Hb as (l' & sv' & _ & _ & Ht). destruct sg; cbn [target] in Ht; try contradiction.
+      destruct Ht as (n & m & Hk). cbn [out_caps out_sink plus option_map] in Hk.
+      exists (n + 1), (mk b [] l' sv' []). intros k.
+      replace (n + 1 + k) with (n + (1 + k)) by lia. rewrite Hk.
+      replace (m + (1 + k)) with (S (m + k)) by lia. cbn [run].
+      replace (nth_error ch (length (compile_seq compile_node 0 None body))) with (@None instr); [reflexivity|].
+      symmetry. apply nth_error_None. rewrite Hch. unfold compile. lia.
+    Qed.
+
 
 
 
   End Tpl.
+
+  (* ---------- template libraries ---------- *)
+
+  Lemma str_eqb_eq (a b : str) : str_eqb a b = true -> a = b.
+  Proof.
+    revert b. induction a as [|x a IH]; intros [|y b] H; try discriminate; [reflexivity|].
+    cbn in H. apply andb_prop in H as [H1 H2]. apply N.eqb_eq in H1. subst. f_equal. apply IH. exact H2.
+  Qed.
+
+  Fixpoint find_t (lib : list tdef) (name : str) : option tdef :=
+    match lib with
+    | [] => None
+    | t :: rest => if str_eqb (td_name t) name then Some t else find_t rest name
+    end.
+
+  Definition has_name (lib : list tdef) (n : str) : bool :=
+    match find_t lib n with Some _ => true | None => false end.
+
+  (* every body is a parser-accepted tree whose includes name templates listed later *)
+  Fixpoint lib_wf (lib : list tdef) : Prop :=
+    match lib with
+    | [] => True
+    | t :: rest => wf_body (has_name rest) (td_body t) = true /\ lib_wf rest
+    end.
+
+  (* the world holds the compiled library *)
+  Definition world_has (lib : list tdef) : Prop :=
+    forall pre rest name t, lib = pre ++ rest -> find_t rest name = Some t ->
+      assoc_get (w_templates wd) name = Some (compile_tdef t).
+
+  Lemma world_has_of_map lib :
+    NoDup (map td_name lib) ->
+    w_templates wd = map (fun t => (td_name t, compile_tdef t)) lib -> world_has lib.
+  Proof.
+    intros Hnd Hw pre rest name t -> Hf. rewrite Hw. clear Hw.
+    induction pre as [|p pre IH]; cbn [app map] in *.
+    - induction rest as [|r rest IHr]; [discriminate|]. cbn [find_t map assoc_get] in *.
+      destruct (str_eqb (td_name r) name); [congruence|]. apply IHr; [|exact Hf]. inversion Hnd; assumption.
+    - inversion Hnd as [|? ? Hnin Hnd']; subst. cbn [assoc_get].
+      destruct (str_eqb (td_name p) name) eqn:E; [|apply IH; exact Hnd'].
+      exfalso. apply str_eqb_eq in E. apply Hnin. rewrite map_app. apply in_or_app. right.
+      clear - Hf E. induction rest as [|r rest IHr]; [discriminate|]. cbn [find_t map] in *.
+      destruct (str_eqb (td_name r) name) eqn:E2.
+      + left. apply str_eqb_eq in E2. congruence.
+      + right. apply IHr. exact Hf.
+  Qed.
+
+  Theorem template_correct : forall ae depth rest pre0 lib,
+    lib = pre0 ++ rest -> world_has lib -> lib_wf rest ->
+    forall name t b (o : sink W), find_t rest name = Some t -> parent_ok b ->
+      match template_sem B ae rest name (absE b [] []) with
+      | ROk text => exists n s', forall k,
+          run W wr wd (n + k) (compile_tdef t) ae depth (compile (td_body t)) 0 (mk b [] [] [] []) o
+          = RDone s' (sink_add o text)
+      | RErr _ => exists n e, forall k,
+          run W wr wd (n + k) (compile_tdef t) ae depth (compile (td_body t)) 0 (mk b [] [] [] []) o = RFail e
+      end.
+  Proof.
+    intros ae depth rest. induction rest as [|t0 rest IH]; intros pre0 lib Hlib Hworld Hwf name t b o Hf Hpar.
+    - discriminate.
+    - cbn [find_t template_sem] in *. destruct Hwf as [Hwf0 Hwfr].
+      assert (Hlib' : lib = (pre0 ++ [t0]) ++ rest) by (rewrite <- app_assoc; exact Hlib).
+      destruct (str_eqb (td_name t0) name) eqn:En.
+      + inversion Hf; subst t.
+        apply (chunk_correct (compile_tdef t0) ae depth (compile (td_body t0))
+                 (fun n includer => template_sem B ae rest n (included_env includer)) (has_name rest));
+          [|reflexivity|exact Hwf0|exact Hpar].
+        (* the includes of this template *)
+        intros n b' l sv o' Hok Hfr Hpar'. unfold has_name in Hok.
+        destruct (find_t rest n) as [t'|] eqn:Ef; [|discriminate].
+        rewrite (Hworld _ _ _ _ Hlib' Ef). cbv zeta.
+        assert (Hp : parent_ok (inc_state (Scope l sv (parent b') (context b') (global b')) (context b'))).
+        { cbn. split; assumption. }
+        exact (IH _ _ Hlib' Hworld Hwfr n t' (inc_state (Scope l sv (parent b') (context b') (global b')) (context b')) o' Ef Hp).
+      + exact (IH _ _ Hlib' Hworld Hwfr name t b o Hf Hpar).
+  Qed.
+
+  (* MAIN THEOREM.  For every template library (statement trees of any nesting: if/elif/else, for
+     with else over arrays, strings and maps, break/continue, set/set_global, set blocks, filter
+     sections, includes), every context and global context: rendering the compiled library on
+     the VM model produces exactly the text of the reference interpreter, or both fail; "enough
+     fuel" is any fuel >= n. *)
+  Theorem compile_correct : forall lib name t (cx glob : ctx) (w : W),
+    world_has lib -> lib_wf lib -> find_t lib name = Some t ->
+    match render B None lib name cx glob with
+    | ROk text => exists n s', forall k,
+        render_to W wr wd (n + k) (compile_tdef t) None cx glob w = RDone s' (SinkTop (wapp w text))
+    | RErr _ => exists n e, forall k,
+        render_to W wr wd (n + k) (compile_tdef t) None cx glob w = RFail e
+    end.
+  Proof.
+    intros lib name t cx glob w Hworld Hwf Hf.
+    set (s0 := {| stack := []; loops := []; setvars := []; caps := []; blocks := []; cur_block := None;
+                  parent := None; context := cx; global := Some glob; capture_block := None;
+                  block_buffer := [] |}).
+    exact (template_correct None 0 lib [] lib eq_refl Hworld Hwf name t s0 (SinkTop w) Hf I).
+  Qed.
+
+  (* ---------- run-level facts on Model/VM.v (any chunk, not only compiled ones) ---------- *)
+
+  (* Include: whatever the included chunk does to ITS state is dropped; the includer continues
+     from its own state, changed only by the text appended to its current sink (the innermost
+     capture buffer, else the output) *)
+  Theorem include_state_is_fresh : forall f tpl ae depth ch pc s (o : sink W) name t2,
+    nth_error ch pc = Some (Include name) -> assoc_get (w_templates wd) name = Some t2 ->
+    run W wr wd (S f) tpl ae depth ch pc s o
+    = match caps s with
+      | [] => match run W wr wd f t2 ae depth (t_chunk t2) 0 (inc_state (scope_of s) (context s)) o with
+              | RDone _ o1 => run W wr wd f tpl ae depth ch (S pc) s o1
+              | RFail e => RFail e
+              | ROutOfFuel => ROutOfFuel
+              end
+      | c :: ct => match run W wr wd f t2 ae depth (t_chunk t2) 0 (inc_state (scope_of s) (context s)) (SinkBuf c) with
+                   | RDone _ (SinkBuf c1) => run W wr wd f tpl ae depth ch (S pc) (upd_caps s (c1 :: ct)) o
+                   | RDone _ (SinkTop _) => RFail ErrPanic
+                   | RFail e => RFail e
+                   | ROutOfFuel => ROutOfFuel
+                   end
+      end.
+  Proof.
+    intros f tpl ae depth ch pc s o name t2 Hi Ht. cbn [run]. rewrite Hi, Ht. destruct (caps s); reflexivity.
+  Qed.
+
+  (* the included template starts with no loops, assignments, captures or stack of its own *)
+  Lemma inc_state_fresh sc cx :
+    stack (inc_state sc cx) = [] /\ loops (inc_state sc cx) = [] /\ setvars (inc_state sc cx) = []
+    /\ caps (inc_state sc cx) = [] /\ parent (inc_state sc cx) = Some sc.
+  Proof. repeat split. Qed.
+
+  (* a render starts from nothing but the context and the global context: no assignment of an
+     earlier render can be visible (the state is built afresh; it is not an argument) *)
+  Definition fresh_state (cx glob : ctx) : state :=
+    {| stack := []; loops := []; setvars := []; caps := []; blocks := []; cur_block := None;
+       parent := None; context := cx; global := Some glob; capture_block := None; block_buffer := [] |}.
+
+  Theorem nothing_survives_render : forall fuel tpl cx glob (w : W),
+    render_to W wr wd fuel tpl None cx glob w
+    = run W wr wd fuel tpl None 0 (t_root_chunk tpl) 0 (fresh_state cx glob) (SinkTop w)
+    /\ forall n, get_value (fresh_state cx glob) n
+                 = match ctx_get cx n with
+                   | Some v => v
+                   | None => match ctx_get glob n with Some v => v | None => VUndef end
+                   end.
+  Proof. intros. split; reflexivity. Qed.
 End Sim.
+
+
+(* the instance the correspondence runs *)
+Theorem compile_correct_world0 :
+  forall (lib : list tdef) (name : str) (t : tdef) (cx glob : ctx) (w : str),
+    NoDup (map td_name lib) -> lib_wf lib -> find_t lib name = Some t ->
+    let wd := world0 (map (fun t => (td_name t, compile_tdef t)) lib) in
+    match render (builtins_of_world wd) None lib name cx glob with
+    | ROk text => exists n s', forall k,
+        render_to str wr_str wd (n + k) (compile_tdef t) None cx glob w = RDone s' (SinkTop (w ++ text))
+    | RErr _ => exists n e, forall k,
+        render_to str wr_str wd (n + k) (compile_tdef t) None cx glob w = RFail e
+    end.
+Proof.
+  intros lib name t cx glob w Hnd Hwf Hf wd.
+  apply (compile_correct str wr_str (@app N) (fun _ _ => eq_refl) (fun w a b => eq_sym (app_assoc w a b))
+           (@app_nil_r N) wd (fun _ => eq_refl) (fun _ _ _ _ _ => eq_refl) lib name t cx glob w);
+    [|exact Hwf|exact Hf].
+  apply world_has_of_map; [exact Hnd|reflexivity].
+Qed.
